@@ -17,11 +17,7 @@ const maxInlineDepth = 10
 func (x *Exec) doCall(fr *Frame, st *State, ins ssa.Instruction, cc *ssa.CallCommon) Value {
 	var args []Value
 	for _, a := range cc.Args {
-		v := x.get(fr, st, a)
-		if v.Local != "" {
-			unsup("address of non-escaping local %s passed to a call", v.Local)
-		}
-		args = append(args, v)
+		args = append(args, x.get(fr, st, a))
 	}
 	site := x.callSite(fr, ins, cc)
 	if cc.IsInvoke() {
@@ -141,6 +137,11 @@ func (x *Exec) externDefault(fr *Frame, st *State, key string, sig *types.Signat
 			unsup("external higher-order function %s has no rule", key)
 		}
 	}
+	for _, a := range args {
+		if a.Local != "" {
+			unsup("address of local variable %s passed to external function %s", a.Local, key)
+		}
+	}
 	x.abstract[key] = true
 	x.assumed["A-extern: "+key+" returns an unconstrained value and writes nothing visible to /repo code"] = true
 	old := st.alloc
@@ -191,6 +192,10 @@ func (x *Exec) callInvoke(fr *Frame, st *State, ins ssa.Instruction, cc *ssa.Cal
 // callFuncValue: call of a function value that is not a static callee.
 func (x *Exec) callFuncValue(fr *Frame, st *State, ins ssa.Instruction, cc *ssa.CallCommon, fv Value, args []Value, site string) Value {
 	sig := cc.Value.Type().Underlying().(*types.Signature)
+	if isCancelFuncType(cc.Value.Type()) {
+		x.callCancel(st, fv.T)
+		return Value{}
+	}
 	if fv.Clo == nil && fv.T != nil {
 		fv.Clo = x.closureOf(fv.T)
 	}
@@ -220,7 +225,10 @@ func (x *Exec) callFuncValue(fr *Frame, st *State, ins ssa.Instruction, cc *ssa.
 			mode = con.Attrs["callback"]
 		}
 		if mode != "framed" {
-			unsup("call of unknown function value %s (%s) in %s: declare `attr callback framed` to assume it writes nothing this function reads", name, cc.Value.Type(), funcKey(fr.fn))
+			// not interpretable: acceptable only if provably unreachable under the contract's assumptions
+			x.oblige(st, "unreach", "fnvalue", site, False, fmt.Sprintf("call of unknown function value %s (%s) in %s must be unreachable (or declare `attr callback framed`)", name, cc.Value.Type(), funcKey(fr.fn)))
+			st.pc = False
+			return x.zeroValue(sig.Results())
 		}
 		x.assumed["A-callback: the function value "+name+" passed to "+funcKey(fr.top.fn)+" does not write memory that function reads or writes"] = true
 		old := st.alloc
@@ -669,6 +677,11 @@ func sigPkg(key string, w *World) *types.Package {
 }
 
 func (x *Exec) applyContract(fr *Frame, st *State, con *Contract, sig *types.Signature, args []Value, site, key string) Value {
+	for _, a := range args {
+		if a.Local != "" {
+			unsup("address of local variable %s passed to contracted function %s", a.Local, key)
+		}
+	}
 	pkg := sigPkg(key, x.w)
 	pre := st.clone()
 	env := x.specEnvFor(con, sig, pkg, args, st, pre)
@@ -729,6 +742,11 @@ func (x *Exec) modRegion(e *Expr, env *SpecEnv) []modRegion {
 			return []modRegion{{Ghost: e.Name}}
 		}
 	}
+	if e.Kind == "call" && e.Name == "spare" && hasInnerStar(e.Args[0], false) {
+		// spare(x[*].f): the spare capacity of every such slice
+		regs := x.starRegion(&Expr{Kind: "call", Name: "spareof", Args: e.Args, Line: e.Line, File: e.File}, env)
+		return regs
+	}
 	if e.Kind == "call" && e.Name == "spare" {
 		s := env.eval(e.Args[0])
 		sl, ok := s.GT.Underlying().(*types.Slice)
@@ -741,6 +759,10 @@ func (x *Exec) modRegion(e *Expr, env *SpecEnv) []modRegion {
 		return []modRegion{{Key: key, Sort: hs, In: func(ref, idx *Term) *Term {
 			return And(Eq(ref, sArr(t)), Ge(idx, Add(sOff(t), sLen(t))))
 		}}}
+	}
+	// a star in the middle of the path: the set of locations over all elements
+	if hasInnerStar(e, true) {
+		return x.starRegion(e, env)
 	}
 	v := env.eval(e)
 	switch v.All {
@@ -779,6 +801,109 @@ func (x *Exec) modRegion(e *Expr, env *SpecEnv) []modRegion {
 	lv := *v.LV
 	lv.Path = nil // whole cell
 	return []modRegion{{Key: lv.Key, Sort: lv.Sort, Single: &lv}}
+}
+
+// hasInnerStar: does the location path contain x[*] followed by further selectors?
+func hasInnerStar(e *Expr, top bool) bool {
+	switch e.Kind {
+	case "field":
+		return hasInnerStar(e.Args[0], false)
+	case "index":
+		if e.Args[1].Kind == "id" && e.Args[1].Name == "*" {
+			if !top {
+				return true
+			}
+			return hasInnerStar(e.Args[0], false)
+		}
+		return hasInnerStar(e.Args[0], false)
+	}
+	return false
+}
+
+// starRegion evaluates a path with inner stars: every star becomes a bound index variable ranging over
+// the slice it indexes; the region is the set of locations designated for some values of them.
+func (x *Exec) starRegion(e *Expr, env *SpecEnv) []modRegion {
+	var bound []*Term
+	var rng []*Term
+	n := 0
+	var rewrite func(e *Expr) *Expr
+	rewrite = func(e *Expr) *Expr {
+		switch e.Kind {
+		case "field":
+			return &Expr{Kind: "field", Name: e.Name, Args: []*Expr{rewrite(e.Args[0])}, Line: e.Line, File: e.File}
+		case "index":
+			base := rewrite(e.Args[0])
+			if e.Args[1].Kind == "id" && e.Args[1].Name == "*" {
+				name := fmt.Sprintf("star%d", n)
+				n++
+				bv := BoundVar("q_"+name, "Int")
+				bound = append(bound, bv)
+				env = env.bind(name, SVal{T: bv})
+				b := env.eval(base)
+				if b.T == nil || b.T.Sort != sortSlice {
+					env.errf(e, "[*] on a non-slice")
+				}
+				rng = append(rng, Ge(bv, Int(0)), Lt(bv, sLen(b.T)))
+				return &Expr{Kind: "index", Args: []*Expr{base, {Kind: "id", Name: name}}, Line: e.Line, File: e.File}
+			}
+			return &Expr{Kind: "index", Args: []*Expr{base, e.Args[1]}, Line: e.Line, File: e.File}
+		}
+		return e
+	}
+	allFields := false
+	top := e
+	spare := false
+	if e.Kind == "call" && e.Name == "spareof" {
+		spare = true
+		top = e.Args[0]
+	}
+	if e.Kind == "field" && e.Name == "*" {
+		allFields = true
+		top = e.Args[0]
+	}
+	re := rewrite(top)
+	v := env.eval(re)
+	if spare {
+		sl, ok := v.GT.Underlying().(*types.Slice)
+		if !ok {
+			env.errf(e, "spare() of non-slice")
+		}
+		key, hs := elemHeapKey(sl.Elem())
+		heapSorts[key] = hs
+		t := v.T
+		return []modRegion{{Key: key, Sort: hs, In: func(r, j *Term) *Term {
+			c := append(append([]*Term{}, rng...), Eq(r, sArr(t)), Ge(j, Add(sOff(t), sLen(t))))
+			return Exists(bound, And(c...))
+		}}}
+	}
+	mk := func(lv *LValue) modRegion {
+		ref, idx := lv.Ref, lv.Idx
+		return modRegion{Key: lv.Key, Sort: lv.Sort, In: func(r, j *Term) *Term {
+			c := append(append([]*Term{}, rng...), Eq(r, ref))
+			if idx != nil && j != nil {
+				c = append(c, Eq(j, idx))
+			}
+			return Exists(bound, And(c...))
+		}}
+	}
+	if allFields {
+		pt, ok := v.GT.Underlying().(*types.Pointer)
+		if !ok {
+			env.errf(e, "x.* on non-pointer")
+		}
+		su := pt.Elem().Underlying().(*types.Struct)
+		var out []modRegion
+		for i := 0; i < su.NumFields(); i++ {
+			out = append(out, mk(x.fieldLV(Value{T: v.T}, pt.Elem(), i)))
+		}
+		return out
+	}
+	if v.LV == nil {
+		env.errf(e, "modifies item %s does not designate a location", e)
+	}
+	lv := *v.LV
+	lv.Path = nil
+	return []modRegion{mk(&lv)}
 }
 
 func (x *Exec) havocRegions(st, pre *State, regions []modRegion) {
